@@ -1,11 +1,16 @@
 #!/bin/bash
 # development aid: confirm a seeded change delivered by a sub-agent, then test the checks against it.
 # usage: [MUT=/tmp/mut2] lib/seedconfirm.sh <PROP> <A|B> [check ids... default PROP]
-# seeds of the second round (MUT=/tmp/mut2) are stored as <PROP>-C / <PROP>-D
+# seeds of the second round (MUT=/tmp/mut2) are stored as <PROP>-C / <PROP>-D, of the fifth (MUT=/tmp/mut5) as -E / -F
 P=$1; V=$2; shift 2; CHECKS=${@:-$P}
 MUT=${MUT:-/tmp/mut}
 W=$MUT/$P; D=$MUT/$P-demo
-L=$V; if [ "$MUT" != /tmp/mut ]; then case $V in A) L=C;; B) L=D;; esac; fi
+L=$V
+case "$MUT" in
+  /tmp/mut) ;;
+  /tmp/mut5) case $V in A) L=E;; B) L=F;; esac;;
+  *) case $V in A) L=C;; B) L=D;; esac;;
+esac
 export GOFLAGS=-mod=mod GOPROXY=off
 cd $W || exit 2
 git checkout -q -- . ; git apply --check $D/$V.diff || { echo "CONFIRM $P-$V: diff does not apply"; exit 2; }
@@ -24,3 +29,16 @@ case "$without" in ok*) ;; *) echo "demo does not pass without the change"; exit
 out=$(/verif/lib/seedtest.sh $D/$V.diff $CHECKS 2>&1); echo "$out" | grep "RESULT\|does not apply\|INCONCLUSIVE" 
 S=/verif/seeded/$P-$L; mkdir -p $S; cp $D/$V.diff $S/patch.diff; rm -rf $S/demo; mkdir -p $S/demo; cp $D/$V/*.go $S/demo/ 2>/dev/null
 echo "$out" | grep RESULT > $S/check_results.txt
+# meta.json from the agent's description (round 5: $D/$V.json), completed with what was run here
+if [ -f $D/$V.json ]; then python3 - "$D/$V.json" "$S/meta.json" "$P" "$L" "$MUT" "$V" <<'PY'
+import json,sys
+src,dst,P,L,MUT,V=sys.argv[1:]
+try: m=json.load(open(src))
+except Exception as e: m={"note":"agent description unreadable: %s"%e}
+out={"id":P+"-"+L,"property":P,"round":5 if MUT=="/tmp/mut5" else None}
+out.update(m)
+out["demonstration"]="demo/x_test.go"
+out["confirmed"]="MUT=%s lib/seedconfirm.sh %s %s (stored as -%s): patch applied in a scratch git worktree of /repo; library builds with and without -tags verif; zygo test suite passes with the patch; demo passes without the patch and fails with it"%(MUT,P,V,L)
+json.dump(out,open(dst,"w"),indent=1)
+PY
+fi
